@@ -16,7 +16,7 @@ RULE = (
     "log, discover response, wake-ups) and controller calls, with periodic-save ticks (the fake threading.Timer "
     "callback is fired by the harness) at drawn positions - biased so that a tick falls right before the last "
     "state change - ended by stop(); in a third of the cases a second gateway with its own file lives in the same process "
-    "and its traffic and periodic saves are interleaved; in a quarter of the cases a file of a previous run exists and the first messages are handled before start_persistence() is called (sometimes called twice); the file is named absolutely, by bare name, as ./name or below a sub-directory of the working directory. Oracle: typed projection before stop() == typed projection of a fresh "
+    "and its traffic and periodic saves are interleaved; in a quarter of the cases a file of a previous run exists and the first messages are handled before start_persistence() is called (sometimes called twice); the file is named absolutely, by bare name, as ./name or below a sub-directory of the working directory. A fifth of the histories run through the asyncio gateway (harness-driven scheduler sleep) and end with `await stop()` while a reconnect attempt of the transport is pending / finished / absent. Oracle: typed projection before stop() == typed projection of a fresh "
     "gateway after start_persistence() on the same file. Non-trivial = >= 1 tick strictly between two state "
     "changes and the last state change after the last tick; distinct by (version, format, kind of last change, "
     "history hash)."
